@@ -51,6 +51,7 @@ def regenerate(ctx):
     disc = rt.discipline(facts, roots)
     facts["discipline"] = disc
     facts["token_oracle_missing"] = rt.token_oracle(facts, str(vlib.REPO))
+    facts["advisory_extended_role"] = rt.advisory_extended_role(facts, roots)
     txt = rt.emit_lean(facts, disc)
     out = vlib.LEAN / "BFL" / "Gen" / "RaceTable.lean"
     changed = (not out.exists()) or out.read_text() != txt
@@ -145,7 +146,7 @@ def run_tsan_case(binary, line, timeout=120):
     build directory (removed afterwards) so that the filter's Logger is enabled"""
     logdir, orig = None, line
     if line.split()[-1] == "LOG":
-        logdir = vlib.BUILD / "tsan" / "h" / ("c10-logs-%d-%d" % (os.getpid(), int(time.time() * 1e6) % 10 ** 9))
+        logdir = vlib.BUILD / "tsan" / "logs" / ("c10-logs-%d-%d" % (os.getpid(), int(time.time() * 1e6) % 10 ** 9))
         logdir.mkdir(parents=True, exist_ok=True)
         line = " ".join(line.split()[:-1] + [str(logdir)])
     try:
@@ -210,7 +211,7 @@ def driver_verdicts(ctx, facts):
         raise vlib.BuildError("driver c10 summary: " + out[1][:200])
     sec, cur = {}, None
     for t in st[3:]:
-        if t in ("R", "C", "F", "S", "U", "P"):
+        if t in ("R", "C", "F", "S", "U", "P", "J"):
             cur = t if t != "R" else ("R2" if "R1" in sec else "R1")
             sec[cur] = []
         else:
@@ -229,6 +230,8 @@ def driver_verdicts(ctx, facts):
         problems.append("the table refers to ids that do not exist (Table.wfB)")
     if sec.get("P", []) != ["FilteringAlgorithm::boot/FilteringAlgorithm::filtering_recursion"]:
         problems.append("thread creation in the library is not exactly boot() -> filtering_recursion: %s" % sec.get("P"))
+    if sec.get("J", []) != ["1" if disc["join_certified"] else "0"]:
+        problems.append("Lean definition and translator's evaluation differ on the join certification: lean=%s translator=%s" % (sec.get("J"), disc["join_certified"]))
     if set(verdicts) != set(mirror) or any(verdicts[n]["ok"] != mirror[n]["ok"] for n in verdicts if n in mirror):
         problems.append("translator's evaluation and Lean's evaluation of the discipline differ: lean=%s mirror=%s" % (
             sorted(n for n, v in verdicts.items() if not v["ok"]), sorted(n for n, v in mirror.items() if not v["ok"])))
@@ -248,6 +251,14 @@ def tsan_cases(ctx):
             rounds = ctx.n(3, g.r.choice([2, 3, 5]))
             pause = g.r.choice([0, 50, 100, 300]) if not ctx.quick() else g.r.choice([50, 100])
             cases.append("race %s %d %d %d %s" % (kind, seed, rounds, pause, "LOG" if (ctx.quick() or g.r.random() < 0.7) else "-"))
+    # the owner's view after wait(): booted-but-never-run and rebooted filters, read results / destroy at once
+    for kind in (("kf", "sis") if ctx.quick() else KINDS):
+        for phase in ("neverrun", "rebooted"):
+            for action in ("read", "destroy"):
+                cases.append("afterwait %s %d %s %s" % (kind, g.r.randint(1, 10 ** 6), phase, action))
+    if not ctx.quick():
+        cases.append("extlog kf %d LOG" % g.r.randint(1, 10 ** 6))      # advisory: logging reconfigured while stepping
+        cases.append("extlog sis %d LOG" % g.r.randint(1, 10 ** 6))
     return cases
 
 
@@ -311,17 +322,33 @@ def run(ctx):
     observed = {}          # member name -> list of (case index, report)
     unpredicted = []       # (key, what, case, report)
     other_warnings = {}
+    afterwait_reports = []
+    advisory_observed = set()
     for ci, line in enumerate(cases):
         r = run_tsan_case(binary, line, timeout=ctx.n(60, 240))
         reps = parse_tsan(r["stderr"])
         r["reports"] = len(reps)
         runs.append(r)
-        if r["out"] == "timeout" or not r["out"].startswith("ok"):
+        if (r["out"] == "timeout" or not r["out"].startswith("ok")) and not line.startswith("extlog"):
             timeouts += 1
+            ctx.notes.append("run did not complete: %s -> %s" % (line, r["out"][:80]))
+        if line.startswith("extlog"):
+            # advisory case (enable_log / disable_log are not commands of the property): compare with the advisory
+            # prediction, never a violation
+            for rep in reps:
+                if rep["kind"] == "data race":
+                    fields, used = attribute(rep, facts, vlib.REPO)
+                    for f in fields:
+                        advisory_observed.add(fname(f))
+            continue
         for rep in reps:
+            if line.startswith("afterwait") and rep["kind"] in ("data race", "heap-use-after-free"):
+                afterwait_reports.append((r, rep))
             if rep["kind"] != "data race":
                 other_warnings[rep["kind"]] = other_warnings.get(rep["kind"], 0) + 1
                 continue
+            if line.startswith("afterwait") and facts["discipline"]["handle_problems"]:
+                continue      # consequence of the lost join: reported once, under the thread-handle key
             fields, used = attribute(rep, facts, vlib.REPO)
             in_repo = [u for u in used if u]
             if not fields:
@@ -355,6 +382,14 @@ def run(ctx):
         else:
             ctx.violation(key_of(n), what + " — no ThreadSanitizer replay found in %d runs" % len(runs),
                           {"table_verdict": v, "runs": [r["line"] for r in runs]}, no_input=True)
+    for hp in facts["discipline"]["handle_problems"]:
+        if afterwait_reports:
+            r, rep = afterwait_reports[0]
+            ctx.violation("thread-handle:" + hp["key"], hp["what"] + " — after wait() the owner races with the still running filtering thread (ThreadSanitizer)", {
+                "harness": "h_race (tsan build)", "command": r["cmd"], "input_line": r["line"], "tsan_report": rep["text"][:5000],
+                "observed_in_runs": len({id(x[0]) for x in afterwait_reports})})
+        else:
+            ctx.violation("thread-handle:" + hp["key"], hp["what"] + " — no ThreadSanitizer replay found", {"problem": hp}, no_input=True)
     seen = set()
     for key, what, r, rep in unpredicted:
         if key in seen:
@@ -367,6 +402,12 @@ def run(ctx):
     # ---- evidence
     hist = {}
     for r in runs:
+        if r["line"].startswith("extlog"):
+            hist["extlog (advisory)"] = hist.get("extlog (advisory)", 0) + 1
+            continue
+        if r["line"].startswith("afterwait"):
+            hist["afterwait " + " ".join(r["line"].split()[3:5])] = hist.get("afterwait " + " ".join(r["line"].split()[3:5]), 0) + 1
+            continue
         for tok in r["out"].split()[1:]:
             k, _, v = tok.partition("=")
             if k in ("steps", "cmds", "logging", "kind"):
@@ -395,6 +436,16 @@ def run(ctx):
                   "reach_controller": len(facts["discipline"]["reach"]["controller"]), "reach_filter": len(facts["discipline"]["reach"]["filter"]),
                   "field_kinds": {k: sum(1 for f in F if f["kind"] == k) for k in ("atomic", "plain", "mutex", "condvar", "other")}},
         "verdict_source": vsource,
+        "advisory_extended_role": {
+            "entry_points_not_in_the_role_map": ["Logger::enable_log", "Logger::disable_log", "Logger::get_folder_path", "Logger::get_file_name_prefix"],
+            "why": "configuration of the logger, not one of the control / query commands the property names; get_folder_path / get_file_name_prefix are exercised by the harness anyway (read-only after enable_log, must stay silent)",
+            "members_that_would_be_undisciplined": facts["advisory_extended_role"],
+            "observed_by_tsan_in_extlog_cases": sorted(advisory_observed)},
+        "closures_resolved": [m["qual"] for m in facts["methods"] if "$closure" in m["qual"]],
+        "functions_handing_out_references": sum(1 for m in facts["methods"] if m.get("escapes")),
+        "join_certified": facts["discipline"]["join_certified"],
+        "thread_handle_operations": ["%s: %s (line %d)" % (facts["methods"][t["meth"]]["qual"], t["op"], t["line"]) for t in facts.get("thread_ops", [])],
+        "afterwait_runs": sum(1 for r in runs if r["line"].startswith("afterwait")), "afterwait_reports": len(afterwait_reports),
         "translator_cross_check": {"rule": "every identifier naming a data member (…_) inside the source extent of a member function has a table row",
                                    "functions_scanned": sum(1 for m in facts["methods"] if m["body"] and m.get("end_line")),
                                    "missing_rows": len(facts["token_oracle_missing"])},
